@@ -1,35 +1,47 @@
-"""Property -> theorems / components registry used by ./check."""
+"""Property -> theorems / components registry used by ./check.
+The data lives in /verif/registry/*.json (one fragment per component group) so that parts can
+be added independently.  A fragment may contain:
+  "components":    {K: {"n": {"quick": int, "thorough": int}, "no_model": bool?}}
+  "props":         {Cxx: {"theorem_files": [...], "model_files": [...], "components": [...],
+                          "trusted_base": [...], "assumptions": [...], "explanation": str}}
+  "manifest_text": {Cxx: {"level": str, "note": str, "technique": str}}
+Several fragments may contribute to the same property: lists are concatenated (without
+duplicates), strings are joined.
+"""
+import json, os, glob
+
+ROOT = os.path.dirname(os.path.dirname(os.path.abspath(__file__)))
 
 TRUSTED_BASE_COMMON = [
     "Coq 8.16.1 kernel (coqc) incl. its vm_compute machine; native_compute not used",
     "hand-written Gallina models under coq/model (modelled, not verified); tied to /repo by the differential correspondence run on every check (harness/, -tags verif) whose observables are re-evaluated by vm_compute inside coqc",
-    "Go harness: generators, fakes, canonicalisation, monitors (harness/*.go)",
-    "check driver (check, lib/registry.py)",
+    "Go harness: generators, fakes, canonicalisation, monitors (harness/)",
+    "check driver (check, lib/registry.py, registry/*.json)",
 ]
 
-# n = number of generated cases per tier
-COMPONENTS = {
-    "LEDGER": {"n": {"quick": 300, "thorough": 6000}},
-}
+COMPONENTS, PROPS, MANIFEST_TEXT = {}, {}, {}
 
-PROPS = {
-    "C01": {
-        "theorem_files": ["props/C01.v"],
-        "model_files": ["model/Ledger.v"],
-        "components": ["LEDGER"],
-        "trusted_base": ["verif hook transport/progress/verif_hook.go (synchronous wrappers around the real updateSeen/updateWritten/emitProgress)"],
-        "assumptions": [
-            "ledger layer only so far: the batcher/worker/client layers and their composition are not yet in the model",
-            "a real sink's success means durable acceptance; PostgreSQL honours the walsender contract",
-        ],
-        "explanation": "C01 at the ledger layer: L1 proved for all histories; order half refuted by finding F1 (stale completion).",
-    },
-    "C02": {
-        "theorem_files": ["props/C02.v"],
-        "model_files": ["model/Ledger.v"],
-        "components": ["LEDGER"],
-        "trusted_base": ["verif hook transport/progress/verif_hook.go"],
-        "assumptions": ["ledger layer only so far"],
-        "explanation": "C02 at the ledger layer: wedge witness (finding F1) proved to persist for ever.",
-    },
-}
+
+def _merge(dst, src):
+    for k, v in src.items():
+        if k not in dst:
+            dst[k] = v
+        elif isinstance(v, list):
+            dst[k] = dst[k] + [x for x in v if x not in dst[k]]
+        elif isinstance(v, str):
+            if v and v not in dst[k]:
+                dst[k] = (dst[k] + " " + v).strip()
+        else:
+            dst[k] = v
+
+
+for _f in sorted(glob.glob(os.path.join(ROOT, "registry", "*.json"))):
+    _d = json.load(open(_f))
+    COMPONENTS.update(_d.get("components", {}))
+    for _p, _v in _d.get("props", {}).items():
+        _merge(PROPS.setdefault(_p, {}), _v)
+    for _p, _v in _d.get("manifest_text", {}).items():
+        _merge(MANIFEST_TEXT.setdefault(_p, {}), _v)
+for _p in PROPS.values():
+    for _k in ("theorem_files", "model_files", "components", "trusted_base", "assumptions"):
+        _p.setdefault(_k, [])
